@@ -70,6 +70,10 @@ def one(data):
             with open(os.path.join(outdir, name), "w", encoding="utf-8") as f:
                 f.write(text)
             flush()
+        if status == "timeout":
+            # a non-terminating input makes every further execution cost the full alarm: the campaign has its answer
+            flush()
+            os._exit(0)
     _count()
 
 
